@@ -51,14 +51,50 @@ def _take(kind, site):
     return d
 
 
+class _EqAll(int):
+    """a number whose == answers True to everything (symbolic-expression style objects, mock.ANY)"""
+
+    def __eq__(self, other):
+        return True
+
+    def __ne__(self, other):
+        return False
+
+    __hash__ = int.__hash__
+
+
+class _EqRaise(int):
+    """a number whose == has no truth value (array style objects)"""
+
+    def __eq__(self, other):
+        raise ValueError("the truth value of this comparison is ambiguous")
+
+    __ne__ = __eq__
+    __hash__ = int.__hash__
+
+
+def _exotic(token):
+    _, kind, base = token.split(":")
+    n = int(base)
+    if kind == "eqall":
+        return _EqAll(n)
+    if kind == "eqraise":
+        return _EqRaise(n)
+    if kind == "float":
+        return float(n)
+    if kind == "true":
+        return True
+    raise BadScript(token)
+
+
 def E(k):
-    """opaque expression site: ['E', k, value, raises]"""
+    """opaque expression site: ['E', k, value, raises]; value: an int, or 'x:<kind>:<n>' for an unusual object"""
     d = _take("E", k)
     if d[3]:
         LOG.append(["raise", k])
         raise ScriptExc(k)
     LOG.append(["eval", k, d[2]])
-    return d[2]
+    return _exotic(d[2]) if isinstance(d[2], str) else d[2]
 
 
 def C(k):
@@ -131,7 +167,7 @@ class _Acc:
         self.items = list(items)
 
     def __iadd__(self, other):
-        LOG.append(["iadd", self.k, enc(other)])
+        LOG.append(["iadd", self.k, enc(other), len(self.items)])      # how much it holds already is observable
         self.items.append(other)
         return self
 
@@ -271,6 +307,12 @@ def enc(v):
 
     if v is ABSENT:
         return "ABSENT"
+    if isinstance(v, _EqAll):
+        return "eqall:" + str(int(v))
+    if isinstance(v, _EqRaise):
+        return "eqraise:" + str(int(v))
+    if isinstance(v, float):
+        return "float:" + repr(v)
     if v is None:
         return "None"
     if v is True:
